@@ -700,7 +700,28 @@ pub fn exec_plan(plan: &ApiPlan) -> RunResult {
     if let Err(v) = judge(plan, &mut res) {
         res.violation = Some(v);
     }
+    observe(&mut res);
     res
+}
+
+/// Observational only (counters in the evidence, never a verdict): document shapes I believe the
+/// Lichess API sends but could not verify offline.
+fn observe(res: &mut RunResult) {
+    use inkayaku_lichess_api::api::bot_event_response::BotEvent;
+    use inkayaku_lichess_api::api::bot_game_state_response::BotGameState;
+    let ch = |extra: &str| format!("{{\"type\":\"challengeDeclined\",\"challenge\":{{\"id\":\"a\",\"url\":\"u\",\"status\":\"declined\",\"variant\":{{\"key\":\"standard\",\"name\":\"Standard\",\"short\":\"Std\"}},\"rated\":true,\"speed\":\"rapid\",\"timeControl\":{{\"type\":\"unlimited\"}},\"color\":\"random\",\"finalColor\":\"black\",\"perf\":{{\"icon\":\"#\",\"name\":\"Rapid\"}}{}}}}}", extra);
+    let gs = |perf: &str, source: &str| format!("{{\"type\":\"gameStart\",\"game\":{{\"gameId\":\"g\",\"fullId\":\"gf\",\"fen\":\"8/8/8/8/8/8/8/8 w - - 0 1\",\"color\":\"white\",\"lastMove\":\"\",\"source\":\"{}\",\"status\":{{\"id\":20,\"name\":\"started\"}},\"variant\":{{\"key\":\"horde\",\"name\":\"Horde\"}},\"speed\":\"blitz\",\"perf\":\"{}\",\"rated\":false,\"hasMoved\":false,\"opponent\":{{\"id\":\"o\",\"username\":\"O\"}}}}}}", source, perf);
+    let cases: Vec<(&str, bool)> = vec![
+        ("obs.challenge_rules_as_json_array", serde_json::from_str::<BotEvent>(&ch(",\"rules\":[\"noAbort\",\"noRematch\"]")).is_ok()),
+        ("obs.challenge_decline_reason_free_text", serde_json::from_str::<BotEvent>(&ch(",\"declineReason\":\"I'm not accepting challenges at the moment.\",\"declineReasonKey\":\"generic\"")).is_ok()),
+        ("obs.game_perf_horde", serde_json::from_str::<BotEvent>(&gs("horde", "friend")).is_ok()),
+        ("obs.game_source_tournament", serde_json::from_str::<BotEvent>(&gs("blitz", "tournament")).is_ok()),
+        ("obs.game_source_arena", serde_json::from_str::<BotEvent>(&gs("blitz", "arena")).is_ok()),
+        ("obs.game_full_ai_player_without_id", serde_json::from_str::<BotGameState>("{\"type\":\"gameFull\",\"id\":\"x\",\"variant\":{\"key\":\"standard\",\"name\":\"Standard\",\"short\":\"Std\"},\"speed\":\"blitz\",\"perf\":{\"name\":\"Blitz\"},\"rated\":false,\"createdAt\":1,\"white\":{\"aiLevel\":3},\"black\":{\"id\":\"b\",\"name\":\"B\"},\"initialFen\":\"startpos\",\"state\":{\"type\":\"gameState\",\"moves\":\"\",\"wtime\":1,\"btime\":1,\"winc\":0,\"binc\":0,\"status\":\"started\"}}").is_ok()),
+    ];
+    for (name, ok) in cases {
+        res.bump(&format!("{}_{}", name, if ok { "decodes" } else { "REJECTED" }));
+    }
 }
 
 fn judge(plan: &ApiPlan, res: &mut RunResult) -> Result<(), Violation> {
